@@ -168,7 +168,7 @@ theorem creation_paths_shape : Generated.ampFlow = [
       "copy(newAccess[:], GetField(FieldUserAccess, &subFields).Data)",
       "for i := 0; i < 64; i++ { if newAccess.IsSet(i) { if !cc.Authorize(i) { return cc.NewErrReply(t, \"Cannot create account with more access than yourself.\") } } }",
       "account := NewAccount( userLogin, string(GetField(FieldUserName, &subFields).Data), string(GetField(FieldUserPassword, &subFields).Data), newAccess, )"])] := by
-  decide
+  decide +kernel
 
 /-- HandleDisconnectUser, statement by statement: requester guard, target lookup, protected-target guard,
     and only then the ban block, the delayed disconnect and the reply – the order `disconnectTarget` models. -/
